@@ -578,6 +578,11 @@ CONV = [
     dict(tag='uni3', sizes=[3, 2], uni=[1, 0], mono=[0, 1]),
     dict(tag='rdom22', sizes=[2, 2], mono=[1, 1], rdom=[[0, 1]], nearest=False),
     dict(tag='combo22', sizes=[2, 2], mono=[1, 1], edge=[[0, 1, 1]], trap=[[0, 1, 1]]),
+    # several constraints of the same family (distinct roll-back slots must not be shared)
+    dict(tag='trap2s', sizes=[2, 2, 2], mono=[1, 1, 0], trap=[[0, 2, 1], [1, 2, 1]]),
+    dict(tag='edge2', sizes=[2, 2, 2], mono=[1, 1, 0], edge=[[0, 2, 1], [1, 2, -1]]),
+    dict(tag='mdom2', sizes=[2, 2, 2], mono=[1, 1, 1], mdom=[[0, 1], [1, 2]]),
+    dict(tag='jmono2', sizes=[2, 2, 2], jmono=[[0, 1], [1, 2]]),
 ]
 
 
